@@ -221,3 +221,22 @@ Record moved (from to : addr) (s s' : state) : Prop := {
   mv_unbonding : forall v, val_unbonding s' v = val_unbonding s v;
   mv_redelegating : forall v w, val_redelegating s' v w = val_redelegating s v w
 }.
+
+(* ---------- follow-up simulation: the migrated world s' against the world s in which nothing migrated ---------- *)
+Definition qrel (from to : Z) (l l' : list (Z * Z)) : Prop :=
+  Forall2 (fun p p' => p' = p \/ (fst p = from /\ p' = (to, snd p))) l l'.
+
+Record sim (from to : addr) (s s' : state) : Prop := {
+  sm_wf : wfP s; sm_wf' : wfP s'; sm_qc : qcoverP s; sm_qc' : qcoverP s';
+  sm_cfg : cfg s' = cfg s; sm_now : now s' = now s; sm_height : height s' = height s;
+  (* in the world without migration the target owns no staking record and no negative balance *)
+  sm_clean : forall v, del_of s to v = None /\ start_of s to v = None /\ ubd_of s to v = None;
+  sm_nonneg : forall d, 0 <= bal_of s to d;
+  sm_bal : forall a d, bal_of s' a d = sel from to a (bal_of s to d + bal_of s from d) 0 (bal_of s a d);
+  sm_del : forall a v, del_of s' a v = sel from to a (option_map (to_del to) (del_of s from v)) None (del_of s a v);
+  sm_start : forall a v, start_of s' a v = sel from to a (start_of s from v) None (start_of s a v);
+  sm_ubd : forall a v, ubd_of s' a v = sel from to a (option_map (to_ubd to) (ubd_of s from v)) None (ubd_of s a v);
+  sm_q : forall t, qrel from to (ubd_slice s t) (ubd_slice s' t)
+}.
+
+Definition balposb (s : state) : bool := forallb (fun kv : (Z * Z) * Z => 0 <=? snd kv) (bal s).
